@@ -8,13 +8,13 @@ ALL = ["C%02d" % i for i in range(1, 21)]
 CHECKS = {
  "C01": ("exploration", "reference-model monitor (withheld-count formula) over generated + small-scope-exhaustive packetmap histories and over the real rtpDownTrack.Write",
    "Every output of packetmap.Map (public API) and of the real forwarding path is compared with seqno minus the number of earlier withheld packets, with 'withheld' observed, over generated arrival histories (loss, duplicates, reordering, wrap, >66000-packet streams) and ALL histories up to a small depth over an 8-letter alphabet. Held on the executions observed.",
-   "Quantifier restricted to the 8192-packet window as the property states; exhaustive only for the stated small sub-space; direct-drive uses the verif shim (no logic) and a capturing write stream.", "5/C01"),
+   "Quantifier restricted to the 8192-packet window as the property states; exhaustive only for the stated small sub-space; direct-drive uses the verif shim (no logic) and a capturing write stream; an end-to-end tier checks what real early and late subscriber PeerConnections receive (gap-free consecutive numbers, copies keep their number).", "5/C01"),
  "C02": ("exploration", "input/output packet diff with pion's independent depacketisers at the down track's write stream",
    "Every forwarded packet is diffed field by field against its source packet (length, timestamp, header, payload outside the picture-id field), markers only ever set on the last packet of a frame of the selected spatial layer, VP8 picture ids equal source id minus wholly withheld frames (7/15 bit, wrap). Held on the executions observed.",
    "In-order arrival for the picture-id clause (the property's scope); SSRC/PT compared against the binding.", "5/C02"),
  "C03": ("exploration", "log-against-log monitor: first transmissions vs responses to injected NACKs through the real gotNACK; Reverse/Map agreement on the public API",
    "Responses to 7 kinds of NACK sets must be byte-identical to the first transmission under the same number or absent; numbers never sent are never answered; withheld packets never resent. Held on the executions observed; one open known finding (marker recomputed after a spatial switch).",
-   "The publisher cache is a real packetcache.Cache filled as the receive loop does; non-vacuity floors on answered NACKs.", "5/C03"),
+   "The publisher cache is a real packetcache.Cache filled as the receive loop does; non-vacuity floors on answered NACKs; an end-to-end tier sends NACKs from a real subscriber PeerConnection (no interceptors, replay protection off) and compares the copies it receives.", "5/C03"),
  "C04": ("exploration", "state-machine monitor over the sampled layer word before/after every Write, sequential and concurrent feedback",
    "The property's switching rules are evaluated on every Write of generated VP8/VP9 streams interleaved with REMB/RR/stale/limit events through the real adjustLayer/updateRate; concurrent writer+feedback histories check that the selection never moves between Writes; loss ceiling bounds after any report sequence. Held on the executions observed.",
    "limitSid is set through a 5-line shim copy of replaceTracks' setter; concurrency clause is schedule-dependent (what was observed is reported).", "5/C04"),
@@ -22,15 +22,15 @@ CHECKS = {
    "Runs the real packetcache.Cache under generated Store/Get/GetAt/Resize/ResizeCond histories (all seqno orders, sizes 1..1504, capacities 1..65535) with a reference model as oracle, then 1 writer + 1 resizer + 14 self-validating readers under -race. Held on the executions observed; not a proof.",
    "Trusts the Go race detector and the harness model; timestamp/marker words are only observable as part of the stored packet bytes.", "5/C05"),
  "C08": ("exploration", "reference model of galene.md's login rules over descriptions parsed by the real loader + subprocess round trip through the real galenectl",
-   "Generated group descriptions (20 password encodings incl. malformed, roles/raw arrays, obsolete format, recording/token flags) x credentials (right, near-miss, unknown user) are judged by an independent model (own pbkdf2/bcrypt); records printed by the real galenectl binary must verify and reject near misses. Held on the executions observed.",
-   "'For no other password' is read modulo the declared hash function (HMAC zero padding, bcrypt 72-byte limit are the algorithm's verdict, counted not judged). The moderation-history clause is decided by the C11/C14 end-to-end monitors.", "5/C08"),
+   "Generated group descriptions (20 password encodings incl. malformed, roles/raw arrays, obsolete format, recording/token flags) x credentials (right, near-miss, unknown user) are judged by an independent model (own pbkdf2/bcrypt); records printed by the real galenectl binary must verify and reject near misses; history tier: after random moderation actions by an operator on other members of a real server, fresh logins of every entry are granted exactly the configured set. Held on the executions observed.",
+   "'For no other password' is read modulo the declared hash function (HMAC zero padding, bcrypt 72-byte limit are the algorithm's verdict, counted not judged).", "5/C08"),
  "C09": ("exploration", "oracle by construction: harness-issued stateful tokens and JWTs with exactly one known perturbation each",
    "Tokens whose validity is known by construction (scope over path alphabets, time offsets >= 120 s, HS256/384/512, ES256, RS256, kid/no kid, alg none / confusion, audience host and path variants) through token.Parse().Check and Description.GetPermission. Held on the executions observed.",
    "Time offsets never closer than 120 s to a boundary; harness signs with its own crypto code.", "5/C09"),
 
  "C06": ("exploration", "receive-loop mirror over the real packetcache with generator-derived ground truth (cache tier)",
    "The harness plays the receive loop (Store, trigger rule, BitmapGet, Expect) against the real cache on generated arrival histories (loss, duplicates, reordering <= 256, wrap, restarts) and checks every NACK against its own record of what arrived (never names a received packet, never at/beyond the newest, at most once, steady losses are named), statistics self-consistency at every sample/reset point, and ToBitmap exactness. Held on the executions observed.",
-   "The liveness clause is asserted only for steady histories whose generator guarantees the preconditions; the receive-loop tier over real RTP (trace points) is part of the WebRTC end-to-end harness.", "5/C06"),
+   "The liveness clause is asserted only for steady histories whose generator guarantees the preconditions; the receive-loop tier runs the real readLoop/nackWriter/sendUpRTCP over real PeerConnections, ordered by three verif trace points in rtpconn and cross-checked with the NACKs the publisher receives.", "5/C06"),
  "C10": ("exploration", "linearizability checking (porcupine) of recorded AddClient/DelClient/SetLocked/read histories against a sequential admission model, with lock-site schedule perturbation, under -race",
    "Short concurrent histories on one group per history, all configurations of max-clients x autolock x autokick x time window, recorded at the call boundary and checked against the admission model; direct invariants (non-operators never exceed max-clients; a refused client is announced to nobody). Held on the schedules observed.",
    "Schedules are sampled, not enumerated (perturbation 0-90 % at every instrumented lock operation); lock changes are issued only by threads holding a joined operator, as the protocol requires.", "5/C10"),
